@@ -31,7 +31,8 @@ LEVEL_TEXT = ("Exploration: thousands of random operation histories (20-200 oper
               " Topology writes through handles of tree copies (segments and adjacency of the copy follow); views of 32 and more nodes over rows not stored in path order."
               " Views walked (and iterators left open) while the tree is edited through node handles."
               " Views / detached copies of twins under custom column names; segments and adjacency of a tree beyond 46 340 nodes."
-              " The segment list of a branch edited in place and asked for again; a node as one SWC row.")
+              " The segment list of a branch edited in place and asked for again; a node as one SWC row."
+              " The views bundle under every ambient state.")
 LEVEL_NOTE = ("Write-through is decided for node handles obtained from the tree (what the statement "
               "names); writes through node handles obtained from a Path/Branch go to a temporary "
               "copy today and are counted, not decided (DESIGN.md C09 scope note).")
